@@ -26,6 +26,7 @@ func init() {
 }
 
 func runC08(c *eng.Ctx) {
+	defer runC08OOO(c)
 	p := c.P
 	preds := func(f *eng.Fn) string {
 		m := map[string]bool{}
